@@ -3,6 +3,7 @@ import MosnVerif.Drive.DownstreamMC
 import MosnVerif.Model.DownstreamSpec
 import MosnVerif.Drive.C10Tcp
 import MosnVerif.Drive.C09
+import MosnVerif.Drive.C10Flags
 /-!
 C10 driver.  Kind `tcp` (stream proxy sessions on real sockets): see `Drive/C10Tcp.lean`.  Kinds `hist` / `mc`:
 `A` = the model's trace, ledger and done flag equal the implementation's.
@@ -49,6 +50,7 @@ def spec (cs : Case) (i : Impl) : Bool :=
 def run (caseToks impl : List String) : String :=
   if caseToks.head? == some "mc" then DownstreamMC.run caseToks else
   if caseToks.head? == some "tcp" then C10Tcp.run caseToks impl else
+  if caseToks.head? == some "flg" then C10Flags.run caseToks impl else  -- c10r7: request-info flags × end causes
   -- the real pools' ledger (kinds of harness/c09: multiplex pool with one-way requests, HTTP/2 pool): the predicate is the
   -- observation predicate of the pool models — counters equal the truth after every operation
   if caseToks.head? == some "mux" || caseToks.head? == some "h2p" || caseToks.head? == some "win" || caseToks.head? == some "mxw" || caseToks.head? == some "h2w" then MosnVerif.Drive.C09.run caseToks impl else
